@@ -9,13 +9,21 @@ def run(config, profile, bin, args=(), **kw):
     return d
 
 
+TIER_BOX = ["quick"]
+
+
 def miri(config, bin, nproc, mshards, seed, args=(), stride=None, tagp="miri"):
     """nproc single-threaded Miri processes, each executing the work of shard i of `mshards` of a `small` workload"""
     stride = stride or max(1, mshards // nproc)
     out = []
     for j in range(nproc):
         i = (j * stride + seed) % mshards
-        out.append(run(config, "miri", bin, list(args) + ["small", f"mshard={i}", f"mshards={mshards}"], tag=f"{tagp}{j}", threads=1, timeout=2400))
+        r = run(config, "miri", bin, list(args) + ["small", f"mshard={i}", f"mshards={mshards}"], tag=f"{tagp}{j}", threads=1, timeout=2400)
+        if TIER_BOX[0] == "thorough" and j % 2 == 1:
+            # thorough tier: every second process under the Tree Borrows aliasing model instead of Stacked Borrows
+            r["miriflags"] = "-Zmiri-tree-borrows"
+            r["tag"] += "tb"
+        out.append(r)
     return out
 
 
@@ -136,7 +144,8 @@ def c11(tier, seed):
 
 
 def c12(tier, seed):
-    return px_runs(tier, "C12", with_c10=False)
+    # the default-API executor compares STANDARD with Rust's FromStr for all 14 types
+    return px_runs(tier, "C12", with_c10=True)
 
 
 def c13(tier, seed):
